@@ -52,6 +52,11 @@ type Server struct {
 	wg         *sync.WaitGroup
 	onConnect  ConnectHook
 	onClose    TerminateHook
+
+	// acceptLock makes "count this new connection" and "stop counting, we are
+	// shutting down" mutually exclusive.
+	acceptLock   *sync.Mutex
+	shuttingDown bool
 }
 
 // ConnectHook wraps the configured connectHook function, calling it with the provided context.
@@ -99,6 +104,8 @@ func NewServer(listener net.Listener, handler RequestHandler) *Server {
 		new(sync.WaitGroup),
 		nil,
 		nil,
+		new(sync.Mutex),
+		false,
 	}
 }
 
@@ -144,7 +151,17 @@ func (srv *Server) Serve() error {
 			return err
 		}
 		verifAt("server.serve.accepted")
+		// A connection accepted while Shutdown is running must either be counted before
+		// Shutdown starts waiting, or be refused: otherwise its goroutine and its hooks
+		// would run after Shutdown has returned.
+		srv.acceptLock.Lock()
+		if srv.shuttingDown {
+			srv.acceptLock.Unlock()
+			_ = conn.Close()
+			continue
+		}
 		srv.wg.Add(1)
+		srv.acceptLock.Unlock()
 		go srv.handleConn(conn)
 	}
 }
@@ -159,6 +176,10 @@ func (srv *Server) Serve() error {
 // Returns any error encountered while closing the listener.
 func (srv *Server) Shutdown() error {
 	srv.logger.Warn("Shutting down")
+	// 0. From now on, connections the accept loop has just accepted are refused
+	srv.acceptLock.Lock()
+	srv.shuttingDown = true
+	srv.acceptLock.Unlock()
 	// 1. Close listener to prevent new incoming conections
 	err := srv.listener.Close()
 	// 2. Cancel recvCtx to stop receiving new requests
